@@ -191,7 +191,7 @@ class Interp:
             c = self.st.class_id_of(v)
             if c is not None:
                 cname = self.ct.name(c)
-                if cname in ("deque", "list"):
+                if cname in ("deque", "list", "tuple"):
                     lo, hi = self.st.get(v, "$lo"), self.st.get(v, "$hi")
                     return hi > lo
                 if cname in ("dict", "OrderedDict", "mappingproxy", "set", "frozenset"):
@@ -571,6 +571,10 @@ class Interp:
         return self.lib.dict_comprehension(self, node, env)
 
     def e_GeneratorExp(self, node, env):
+        g = node.generators
+        if len(g) == 1 and not g[0].ifs and not g[0].is_async and isinstance(node.elt, ast.Name) \
+                and isinstance(g[0].target, ast.Name) and node.elt.id == g[0].target.id:
+            return self.eval(g[0].iter, env)          # (x for x in xs): the same items in the same order
         raise Unsupported(f"bare generator expression at line {node.lineno}")
 
     def eval_args(self, node: ast.Call, env: Env) -> CallArgs:
@@ -753,6 +757,8 @@ class Interp:
         return self.engine.call_unknown_function(self, f, cargs, node)
 
     def instantiate(self, c: int, cargs: CallArgs, node=None) -> z3.ExprRef:
+        if self.ct.name(c) == "type" and len(cargs.pos) == 1 and not cargs.kw:
+            return V.VCls(V.type_of(cargs.pos[0], self.ct))        # type(x)
         info = self.ct.info.get(c)
         if info is None:
             return self.lib.construct(self, self.ct.name(c), cargs, node)
@@ -787,6 +793,15 @@ class Interp:
         if spec is not None:
             return spec(self, fv, cargs, node)
         if fv.is_async:
+            if self.st.no_fork:
+                # inside a summarised comprehension: the coroutine object as a term of its argument
+                if len(cargs.pos) == 1 and not cargs.kw and cargs.star is None and cargs.starstar is None:
+                    key = ("coro_fn", fv.qualname)
+                    cache = self.st.ghost.setdefault("$coro_fns", {})
+                    if key not in cache:
+                        cache[key] = self.st.reg_fun(FuncV(fv.node, fv.env, fv.module, fv.qualname, fv.bound, fv.cls))
+                    return self.lib.coro_app(cache[key], cargs.pos[0])
+                raise Unsupported("async call shape inside a summarised comprehension")
             return self.st.reg_fun(AwaitableV("coro", {"fv": fv, "cargs": cargs}))
         return self.run_function(fv, cargs, node)
 
